@@ -19,7 +19,9 @@ from wormhole_mailbox_server import server_tap, server_websocket, database
 from wormhole_mailbox_server import server as server_mod
 
 try:
-    tlog.defaultObserver.stop()      # errors logged by the server are collected per step, not printed
+    # errors logged by the server are collected per step by an observer, not printed to stderr
+    from twisted.logger import globalLogBeginner
+    globalLogBeginner.beginLoggingTo([lambda event: None], redirectStandardIO=False, discardBuffer=True)
 except Exception:
     pass
 
